@@ -425,6 +425,7 @@ def cases(draw):
 
 class C32(core.Prop):
     id = "C32"
+    ready = True
     drivers = ["mpi_interp"]
     sizes = {"quick": 1000, "thorough": 30000}
     max_workers = 4
